@@ -374,6 +374,9 @@ FUNCS = [
     fn("haenge_an", [("t", TT, True), ("s", TT, False)], TNONE, [setv(lvid("t"), bin_("cat", ident("t"), ident("s")))]),
     fn("kiste_kopie_aendern", [("k", TS("Kiste"), False)], TZ, [setv(idx_lv(fld_lv("inhalt", lvid("k")), zl(1)), zl(99)), RET(bin_("idx", {"k": "fld", "f": "inhalt", "e": ident("k")}, zl(1)))]),
     fn("paar_kopie_aendern", [("p", TS("Paar"), False)], TT, [setv(idx_lv(fld_lv("wort", lvid("p")), zl(1)), lit(C("X"))), RET({"k": "fld", "f": "wort", "e": ident("p")})]),
+    fn("paar_feld_ersetzen", [("p", TS("Paar"), False)], TT, [setv(fld_lv("wort", lvid("p")), lit(T("im Aufgerufenen dem Feld neu zugewiesen"))), RET({"k": "fld", "f": "wort", "e": ident("p")})]),
+    fn("kiste_feld_ersetzen", [("k", TS("Kiste"), False)], TZ, [setv(fld_lv("inhalt", lvid("k")), lit(L(TZ, [Z(7), Z(8), Z(9), Z(10)]))), setv(fld_lv("wort", fld_lv("paar", lvid("k"))), lit(T("auch das innere Feld neu"))),
+                                                                RET(un("len", {"k": "fld", "f": "inhalt", "e": ident("k")}))]),
     fn("paar_ref_aendern", [("p", TS("Paar"), True)], TNONE, [setv(fld_lv("zahl", lvid("p")), bin_("plus", {"k": "fld", "f": "zahl", "e": ident("p")}, zl(1)))]),
     fn("ist_gross", [("n", TZ, False)], TW, [RET({"k": "wenn", "val": True, "c": bin_("gt", ident("n"), zl(2))})]),
     fn("fib", [("n", TZ, False)], TZ, [if_(bin_("lt", ident("n"), zl(2)), [RET(ident("n"))]), RET(bin_("plus", call("fib", [("n", bin_("minus", ident("n"), zl(1)))]), call("fib", [("n", bin_("minus", ident("n"), zl(2)))])))]),
@@ -625,6 +628,8 @@ def copy_cases(tier, rng):
     add("copy:arg:forward:list", [var("a", TL(TZ), LZ, False), var("r", TZ, call("kopie_spaeter_liste", [("l", ident("a")), ("v", zl(9))]), False)], *pair2(ident("r"), TZ, ident("a"), TL(TZ)))
     add("copy:arg:forward:text", [var("a", TT, TX, False), var("r", TT, call("kopie_spaeter_text", [("t", ident("a"))]), False)], *pair2(ident("r"), TT, ident("a"), TT))
     add("copy:arg:forward:paar", [var("a", TS("Paar"), PA, False), var("r", TT, call("kopie_spaeter_paar", [("p", ident("a"))]), False)], *pair2(ident("r"), TT, ident("a"), TS("Paar")))
+    add("copy:arg:paar-field-assign", [var("a", TS("Paar"), PA, False), var("r", TT, call("paar_feld_ersetzen", [("p", ident("a"))]), False)], *pair2(ident("r"), TT, ident("a"), TS("Paar")))
+    add("copy:arg:kiste-field-assign", [var("a", TS("Kiste"), KI, False), var("r", TZ, call("kiste_feld_ersetzen", [("k", ident("a"))]), False)], *pair2(ident("r"), TZ, ident("a"), TS("Kiste")))
     add("copy:arg:paar-field-char", [var("a", TS("Paar"), PA, False), var("r", TT, call("paar_kopie_aendern", [("p", ident("a"))]), False)], *pair2(ident("r"), TT, ident("a"), TS("Paar")))
     # Referenz parameters alias exactly the argument: variable, element, field
     add("ref:var", [var("a", TL(TZ), LZ, False), {"k": "expr", "e": call("setze_erstes", [("l", lvid("a")), ("v", zl(9))])}], ident("a"), TL(TZ))
